@@ -2,24 +2,7 @@
 //@ item src/app.rs :: struct Router
 //@ end
 
-//@ item src/app.rs :: struct RouterQuerier
-//@   attr #[verifier::reject_recursive_types(ExecC)]
-//@   attr #[verifier::reject_recursive_types(QueryC)]
-//@   replace "dyn CosmosRouter<ExecC = ExecC, QueryC = QueryC>" => "dyn CosmosRouter<ExecC, QueryC>"
-//@ end
-impl<'a, ExecC, QueryC> Querier for RouterQuerier<'a, ExecC, QueryC> {
-    // a RouterQuerier answers from the store and block it was built over
-    open spec fn snap(&self) -> (St, BlockInfo) { (self.storage.view(), *self.block_info) }
-}
-//@ impl_open src/app.rs :: RouterQuerier
-//@ end
-//@ fn src/app.rs :: RouterQuerier :: new
-//@   ret r
-//@   ensures [C10.rq.snapshot] r.snap() == (storage.view(), *block_info)
-//@   replace "dyn CosmosRouter<ExecC = ExecC, QueryC = QueryC>" => "dyn CosmosRouter<ExecC, QueryC>"
-//@ end
-}
-
+//@ include contracts/app_querier.rs
 //@ impl_open src/app.rs :: Router
 //@   replace "CustomT::ExecT: CustomMsg + DeserializeOwned + 'static," => ""
 //@   replace "CustomT::QueryT: CustomQuery + DeserializeOwned + 'static," => ""
